@@ -173,7 +173,7 @@ func driverMain(args []string) int {
 	}
 	d := &driver{p: p, tier: *tier, seed: seed, exe: exe, workerExe: *workerExe, verifDir: *verifDir, budget: p.Budget}
 	if d.budget == 0 {
-		d.budget = 20
+		d.budget = 60 // a single layout of ~130 multi-edges takes 6 s alone and over 20 s on a loaded machine
 	}
 	d.runDir = filepath.Join(*verifDir, ".run", fmt.Sprintf("%s.%d", p.ID, os.Getpid()))
 	os.MkdirAll(d.runDir, 0o755)
@@ -865,7 +865,7 @@ func replayMain(args []string) int {
 	jpath := filepath.Join(dir, "journal")
 	budget := p.Budget
 	if budget == 0 {
-		budget = 20
+		budget = 60
 	}
 	cmd := exec.Command(workerExe, "worker", "-case", path, "-journal", jpath, "-budget", strconv.Itoa(5*budget))
 	out, _ := cmd.CombinedOutput()
